@@ -433,7 +433,11 @@ pub fn main(o: &Opts) -> i32 {
     let mut rep = Report::new("C09", o.tier.name(), o.seed, "exploration");
     let mut progs: Vec<Program> = match o.tier {
         Tier::Quick => program_space2(2, 1, 0),
-        Tier::Thorough => program_space(2, 1),
+        Tier::Thorough => {
+            let mut p = program_space(2, 1);
+            p.extend(program_space2(3, 1, 0).into_iter().filter(|x| x.p1.len() == 3));
+            p
+        }
     };
     progs.extend(size_family(if o.tier == Tier::Quick { 3 } else { 5 }).into_iter().map(|x| x.3));
     progs.extend(extra_programs());
@@ -442,13 +446,13 @@ pub fn main(o: &Opts) -> i32 {
         let v: Value = serde_json::from_str(&std::fs::read_to_string(path).unwrap()).unwrap();
         progs.retain(|p| Some(p.name().as_str()) == v["case"]["program"].as_str());
     }
-    rep.bounds = json!({"programs": progs.len(), "space": if o.tier == Tier::Quick { "P(2,1) without second closures + S(3)" } else { "P(2,1) + S(5)" }, "full_opening": "padded gate count <= 4", "external_seeds": 2});
+    rep.bounds = json!({"programs": progs.len(), "space": if o.tier == Tier::Quick { "P(2,1) without second closures + S(3)" } else { "P(2,1) with second closures + the depth-3 layer of P(3,1) + S(5)" }, "full_opening": "padded gate count <= 4", "external_seeds": 2});
     rep.curves = CURVES.iter().map(|s| s.to_string()).collect();
     rep.rule = "for every program the prover run is recorded at the Merlin API; the scalars its RNG emitted are recovered by replaying the recorded bytes; every commitment of the proof is opened as (known part) + (one unused draw) * B_blinding, the masking vectors are recovered from the final inner-product scalars by an order-agnostic search over unused draws, the published blinding scalars are recomputed, and every draw must be non-zero, distinct and used exactly once; keying is observed on the RNG builder; determinism / difference under same / different external randomness; non-trivial = programs with a full opening".into();
     let start = rep.start;
     let mut skipped = 0u64;
     for (ci, curve) in CURVES.iter().enumerate() {
-        let sub: Vec<&Program> = progs.iter().enumerate().filter(|(i, _)| progs.len() < 5 || o.tier == Tier::Thorough || i % 3 == ci).map(|(_, p)| p).collect();
+        let sub: Vec<&Program> = progs.iter().enumerate().filter(|(i, p)| progs.len() < 5 || (o.tier == Tier::Thorough && p.p1.len() < 3) || i % 3 == ci).map(|(_, p)| p).collect();
         let res: Vec<Option<Out>> = with_curve!(*curve, G => {
             let env = Env::<G>::new(64);
             par_run(&sub, start, o.budget, |_, p| check_program::<G>(&env, p, o.seed))
